@@ -43,6 +43,15 @@ def build_controller(cfg):
     ps = PhySettings(phytype="verif", memtype=cfg["memtype"], databits=cfg["dfi_databits"], dfi_databits=cfg["dfi_databits"],
                      nphases=cfg["nphases"], rdphase=cfg["rdphase"], wrphase=cfg["wrphase"], cl=cfg["cl"], cwl=cfg["cwl"],
                      read_latency=cfg["read_latency"], write_latency=cfg["write_latency"], nranks=1 << cfg["rankbits"])
+    ps_ctl = ps
+    if cfg.get("phase_signals", cfg["nphases"] > 1 and (cfg["cl"] + cfg["cwl"]) % 2 == 0):
+        # as the PHYs with software-adjustable phases do (S7DDRPHY, USDDRPHY, LPDDR4/5: CSRStorage(log2(nphases)).storage):
+        # the controller gets rdphase / wrphase as Signals holding the same values, so behaviour must be identical
+        import copy
+        from migen import Signal, log2_int
+        ps_ctl = copy.copy(ps)
+        ps_ctl.rdphase = Signal(log2_int(cfg["nphases"]), reset=cfg["rdphase"])
+        ps_ctl.wrphase = Signal(log2_int(cfg["nphases"]), reset=cfg["wrphase"])
     gs = GeomSettings(cfg["bankbits"], cfg["rowbits"], cfg["colbits"])
     # small arrays, but at least 11 address lines so that A10 (precharge-all / auto-precharge flag) exists
     gs.addressbits = max(gs.addressbits, cfg.get("addressbits", 0))
@@ -51,7 +60,7 @@ def build_controller(cfg):
     cs = ControllerSettings(cmd_buffer_depth=c["cmd_buffer_depth"], read_time=c["read_time"], write_time=c["write_time"],
                             with_refresh=c["with_refresh"], refresh_zqcs_freq=1.0, refresh_postponing=c["refresh_postponing"],
                             with_auto_precharge=c["with_auto_precharge"])
-    return LiteDRAMController(ps, gs, ts, clk_freq=c["zq_period"], controller_settings=cs), ps, gs, ts
+    return LiteDRAMController(ps_ctl, gs, ts, clk_freq=c["zq_period"], controller_settings=cs), ps, gs, ts
 
 
 def model_cfg_line(cfg):
